@@ -787,8 +787,12 @@ def run_history_node(a5mod, seam, spec):
     landed = [False]
     lastloc = [None]
 
+    cap = spec.get('call_cap', 4_000_000)
+
     def handler(code, pos):
         counter[0] += 1
+        if counter[0] > cap:
+            raise SimAbort()
         inj = inject[0]
         if inj is not None and counter[0] - 1 == inj[0]:
             inject[0] = None
@@ -824,6 +828,9 @@ def run_history_node(a5mod, seam, spec):
             seam.handler = handler
             try:
                 outcome, val = apply_call(a5mod, fname, args)
+            except SimAbort:
+                # runaway call: stop the history here (state after an abandoned call is not judged)
+                outcome, val = ['abort', 'cap'], None
             finally:
                 seam.handler = None
                 inject[0] = None
@@ -831,6 +838,9 @@ def run_history_node(a5mod, seam, spec):
             owned[oid] = (args, val, fname)
             rec.update({'f': fname, 'pre': pre, 'outcome': outcome, 'post': post,
                         'steps': counter[0], 'landed': landed[0], 'loc': lastloc[0]})
+            if outcome[0] == 'abort':
+                recs.append(rec)
+                break
         elif kind == 'mutate_result':
             ref = op['ref']
             applied = None
